@@ -20,7 +20,7 @@ BOUNDS = {
 CHUNK = 25
 BUDGET = {"quick": 600, "thorough": 3400}
 ASSUMPTIONS = [
-    "not asserted: a predecessor that collected nothing (no data.csv exists; the docs do not say what a successor then reads)",
+    "a predecessor that collected nothing: how the run proceeds is not asserted (the docs do not say), only that the successor collects no line",
     "filters address cells by index so that a stage may drop the header record",
     "docs/variables.md: a later csvpath's variable 'effectively overwrite[s] any same-name variable that is run before'",
 ]
@@ -142,7 +142,24 @@ def run_case(case):
             a = run.run_csvpath(f"${inp}[{FILTERS[i][0]}][{FILTERS[i][1]}]", "collect", policy=("collect",), delimiter=dl, quotechar=qc)
             exp.append(a["lines"])
         if not ok:
-            return {"viol": [], "states": [], "transitions": 0, "nontrivial": False, "outcome": "not-asserted", "fingerprint": "na", "extra": {"not_asserted_empty_predecessor": 1}}
+            # a predecessor collected NOTHING. What the run then does (stop with an error, or let the successor read nothing) is not
+            # documented and not asserted; but whatever it does, the successor must not come up with lines its predecessor never
+            # collected ("reads exactly the lines its predecessor collected ... instead of the original file").
+            kk = len(exp)  # index of the first member whose predecessor is empty
+            lines, exc = groups.run_method(cp, method)
+            results = groups.results_of(cp)
+            if kk < len(results):
+                try:
+                    mem = [list(l) for l in results[kk].lines.next()] if hasattr(results[kk].lines, "next") else [list(l) for l in (results[kk].lines or [])]
+                except Exception:  # noqa: BLE001
+                    mem = []
+                if mem:
+                    bad(f"member {kk}: its predecessor collected nothing, yet it collected lines (read the original file?)", mem, [], cstr)
+            rd = groups.run_dirs()
+            dp = os.path.join(rd[0], f"m{kk}", "data.csv") if rd else None
+            if dp and os.path.isfile(dp) and _read_csv(dp, dl, qc):
+                bad(f"member {kk}: its predecessor collected nothing, yet its data.csv has lines", _read_csv(dp, dl, qc), [], cstr)
+            return {"viol": viol, "states": [run.h64((tuple(chain), s, fi, "empty-predecessor"))], "transitions": 1, "nontrivial": False, "outcome": "empty-predecessor", "fingerprint": run.h64((cstr, [v["diverge"] for v in viol])), "extra": {"empty_predecessor_cases": 1}}
         lines, exc = groups.run_method(cp, method)
         if exc is not None:
             bad("run raised", f"{type(exc).__name__}: {str(exc)[:120]}", None, cstr)
